@@ -38,6 +38,8 @@ def feeds_for(model, rng, binding):
         else:
             a = rng.standard_normal(n).astype(np.float64)
             special = np.array([0.0, -0.0, 1.0, -1.0, 0.5, -2.5, 1e-3, 123456.789, 65504.0, 1.0000001, 3.3e38, 1e-40, np.inf, -np.inf, np.nan, 2.0 ** 24 + 1])
+            if any(nd.op_type.startswith("Reduce") for nd in model.graph.node):
+                special = special[:10]      # keep sums finite and order-insensitive up to rounding
             k = min(n, len(special))
             if k and tt.elem_type != TP.FLOAT or True:
                 idx = rng.choice(n, size=min(n, 6), replace=False)
@@ -126,7 +128,8 @@ def check_graph(args):
         return {"key": key, "status": "violation", "changed": changed,
                 "what": f"optimised model is not loadable: {str(e)[:300]}"}
     in_after = {i.name for i in s1.get_inputs()}
-    exact = not any(n.op_type == "Swish" for n in after.graph.node)
+    # reductions may be re-associated by a layout change; Swish replaces Mul(x, Sigmoid x): tolerance compare
+    exact = not any(n.op_type == "Swish" or n.op_type.startswith("Reduce") for n in after.graph.node)
     for f, ref in runs:
         try:
             got = s1.run(None, {k: v for k, v in f.items() if k in in_after})
